@@ -256,6 +256,12 @@ func (svc *service) writeMessage(msg message.Message) (int, error) {
 		return 0, ErrBufferNotReady
 	}
 
+	// A message larger than the buffer can never be written: waiting for room
+	// (with wmu held) would block this and every later write for good.
+	if int64(l) > svc.out.size {
+		return 0, fmt.Errorf("message of %d bytes exceeds the buffer size of %d bytes", l, svc.out.size)
+	}
+
 	// This is to serialize writes to the underlying buffer. Multiple goroutines could
 	// potentially get here because of calling Publish() or Subscribe() or other
 	// functions that will send messages. For example, if a message is received in
